@@ -22,12 +22,13 @@
   pre-allocations and EVERY atomic move of the plugin model (filter, preempt, bind, event delivery, both resync forms,
   API release, the pod-IP sync pass, administrator reservations, configuration reload, process restart, API truth and
   lister moves; one failing apiserver call and one failing provider call per move) - whose side condition `callowed`
-  holds.  Four moves carry one:
+  holds.  Five moves carry one:
     (a) `bind`: the pod already owns an address for every request (`bindOK`: what a Filter that saw the Pool object
         leaves behind, `filter_that_saw_pool_makes_bind_ok`; always true for pods without pool annotation), OR the
         pod's pool is not a sized pool at that moment (`bindUnsized`: no Pool object of that name exists and nobody is
         counting for it - then the step is reported as `unsizedBind`, the property speaks of sized pools only);
-    (b) `syncPodIPs`: the pass re-creates no record of a pool (`syncOK`);
+    (b) `syncPodIPs`, and `markTerminating` (UpdatePod runs `syncPodIP` for a Running pod): the pass re-creates no
+        record of a pool (`syncOK`; `termOK`: the pod's addresses are allocated - C04's guarantee for a live bound pod);
     (c) `reload`: every pool of the new configuration has a node subnet (the decoder's check) and no store object
         orphaned by an earlier reload belongs to a pool (`orphanFree`); `restart`: `orphanFree`.
   (a) and (b) are NOT guaranteed by the code - two genuine deviations, both confirmed on the real plugin:
